@@ -112,6 +112,10 @@ def build_traces(rng, nconn, link="eth", nrich=0):
         for c in order:
             traces[crate].append((c, relink(conns[c][crate][ptr[c]], link)))
             ptr[c] += 1
+        # frames that belong to no connection (UDP, ICMP, later fragments, truncated headers, ARP, ...) in between
+        if nrich:
+            for f in traffic.noise(rng, nid, max(4, len(order) // 6)):
+                traces[crate].insert(rng.randrange(len(traces[crate]) + 1), (-1, relink(f, link) if len(f) > 14 else f))
     return traces
 
 
@@ -212,6 +216,8 @@ def run(tier, v):
         res = []
         for fh, fr in zip(frames, o["out"]):
             if fr["r"] != "ok":
+                continue
+            if not (fr["req"] or fr["resp"]):
                 continue
             if fr.get("src"):
                 a, z = fr["src"], fr["dst"]                 # as the crate's own packet parser sees them (harness label)
